@@ -70,7 +70,7 @@ theorem delivers_exactly (env : Env) (c : Conn)
     (feed env c (frames (hp :: ps))).1.buf = [] ∧
     (feed env c (frames (hp :: ps))).1.st.peer = some pn ∧
     attempts (feed env c (frames (hp :: ps))).2 = ms.map (rewriteSrc c.st.alias) := by
-  have hproc := processMessage_handshake env c.st hp (some pn) ver server hpeer hhs hdir
+  have hproc := processMessage_handshake env c.st hp pn ver server hpeer hhs hdir
   obtain ⟨v1, v2, v3, _, v5⟩ := procAll_valid env pn ps { c.st with peer := some pn, ver := some ver } ms rfl hdec hvalid
   have hall : procAll env c.st (hp :: ps) =
       ⟨(procAll env { c.st with peer := some pn, ver := some ver } ps).st,
@@ -124,7 +124,7 @@ theorem violation_closes (env : Env) (c : Conn) (hopen : c.closed = false) (hbuf
   rw [hc]
   simp only [List.append_nil]
   refine ⟨shutdown_closed env _, s', hpend, ?_⟩
-  simp only [shutdown, closeEvs, closeConn, halias, (procAll_alias env good c.st).1, List.cons_append]
+  simp only [shutdown, closeEvs, closeConn, clearPending_eq_map, halias, (procAll_alias env good c.st).1]
 
 /-- nothing the peer sent at or after the violation reaches `deliver_message`: what is attempted after the
     preceding frames are only error replies built from the pending table -/
@@ -139,7 +139,8 @@ theorem violation_delivers_nothing_more (env : Env) (c : Conn) (hopen : c.closed
   · rw [hev]
     simp only [attempts, List.filterMap_append, List.filterMap_cons, Ev.attempt]
   · intro m hm
-    obtain ⟨e, he, rfl⟩ := closeEvs_attempts env stc m hm
+    rw [closeEvs, attempts_clearEv, List.mem_map] at hm
+    obtain ⟨e, he, rfl⟩ := hm
     exact ⟨e, hp ▸ he, stc.peer, rfl⟩
 
 /-- and for **every segmentation** of such a stream: same closed connection, same events -/
@@ -175,19 +176,41 @@ theorem missing_handshake_offends (env : Env) (s : PState) (p rest : Bytes) (m :
     (hp : s.peer = none) (hd : env.decode p = .msg m) : Offending env s (frame p ++ rest) .expectedHandshake :=
   .payload p rest _ hsz (by rw [processMessage_missing_handshake env s p m hp hd])
 
-/-- a repeated handshake — *partial*: the missing hypothesis is that the first handshake gave a context name
-    (`s.peer = some pn`).  The full statement "any handshake after a completed handshake is a violation" is
-    **false** of the code as it is: `repeated_handshake_accepted_after_nameless_handshake` (§7). -/
-theorem second_handshake_offends_partial (env : Env) (s : PState) (p rest : Bytes) (pn : Name) (name : Option Name)
+/-- a handshake received when the peer is already known is a violation -/
+theorem second_handshake_offends_known (env : Env) (s : PState) (p rest : Bytes) (pn : Name) (name : Option Name)
     (ver : Nat) (server : Bool) (hsz : p.length ≤ env.maxSize) (hp : s.peer = some pn)
     (hd : env.decode p = .handshake name ver server) : Offending env s (frame p ++ rest) .secondHandshake :=
   .payload p rest _ hsz (by rw [processMessage_second_handshake env s p pn name ver server hp hd])
 
-theorem wrong_direction_handshake_offends (env : Env) (s : PState) (p rest : Bytes) (name : Option Name) (ver : Nat)
+/-- **repeated handshake** at full strength: on a connection that had not shaken hands, after *any* accepted
+    handshake `hp1` (whatever it says) and any run `good` of frames processed without exception, *any* further
+    handshake frame is a violation.  (Before fix 849271e this was false: a handshake without a context name
+    could be repeated.) -/
+theorem second_handshake_offends (env : Env) (s : PState) (hp1 : Bytes) (good : List Bytes) (p rest : Bytes)
+    (n1 n2 : Option Name) (v1 v2 : Nat) (sv1 sv2 : Bool)
+    (hfresh : s.peer = none) (hd1 : env.decode hp1 = .handshake n1 v1 sv1)
+    (hok : (procAll env s (hp1 :: good)).err = none)
+    (hsz : p.length ≤ env.maxSize) (hd : env.decode p = .handshake n2 v2 sv2) :
+    Offending env (procAll env s (hp1 :: good)).st (frame p ++ rest) .secondHandshake := by
+  simp only [procAll] at hok ⊢
+  cases he : (processMessage env s hp1).err with
+  | some w => simp [he] at hok
+  | none =>
+    simp only [he] at hok ⊢
+    obtain ⟨pn, hpn⟩ := processMessage_handshake_sets_peer env s hp1 n1 v1 sv1 hfresh hd1 he
+    exact second_handshake_offends_known env _ p rest pn n2 v2 sv2 hsz (procAll_peer_some env good _ pn hpn) hd
+
+/-- a handshake that does not name the peer is itself a violation (fix 849271e) -/
+theorem nameless_handshake_offends (env : Env) (s : PState) (p rest : Bytes) (ver : Nat) (server : Bool)
+    (hsz : p.length ≤ env.maxSize) (hp : s.peer = none) (hd : env.decode p = .handshake none ver server) :
+    Offending env s (frame p ++ rest) .badHandshakeName :=
+  .payload p rest _ hsz (by rw [processMessage_nameless_handshake env s p ver server hp hd])
+
+theorem wrong_direction_handshake_offends (env : Env) (s : PState) (p rest : Bytes) (pn : Name) (ver : Nat)
     (server : Bool) (hsz : p.length ≤ env.maxSize) (hp : s.peer = none)
-    (hd : env.decode p = .handshake name ver server) (hdir : server = s.incoming) :
+    (hd : env.decode p = .handshake (some pn) ver server) (hdir : server = s.incoming) :
     Offending env s (frame p ++ rest) (if s.incoming then .serverHsFromClient else .clientHsAsClient) :=
-  .payload p rest _ hsz (processMessage_wrong_direction env s p name ver server hp hd hdir).2
+  .payload p rest _ hsz (processMessage_wrong_direction env s p pn ver server hp hd hdir).2
 
 theorem foreign_destination_offends (env : Env) (s : PState) (p rest : Bytes) (m : Msg) (pn : Name)
     (hsz : p.length ≤ env.maxSize) (hp : s.peer = some pn) (hd : env.decode p = .msg m)
@@ -218,47 +241,37 @@ theorem after_close_nothing (env : Env) (c : Conn) (d : Bytes) (h : (feed env c 
 
 /-! ## 5. Every request still pending on a closed connection fails with a delivery error -/
 
-theorem attempts_clearEv (env : Env) (peer : Option Name) (l : List (Nat × Addr × Addr)) :
-    attempts (l.map (clearEv env peer)) = l.map (errReplyFor peer) := by
-  induction l with
-  | nil => rfl
-  | cons e rest ih =>
-    have hat : Ev.attempt (clearEv env peer e) = some (errReplyFor peer e) := by
-      unfold clearEv; cases deliverLocal env (errReplyFor peer e) <;> rfl
-    simp only [attempts, List.map_cons, List.filterMap_cons, hat] at ih ⊢
-    rw [ih]
-
-/-- **pending all failed** — *partial*: under the hypothesis `HandlersKeepContract env` (no registered
-    handler answers an error reply with an exception other than `QMI_MessageDeliveryException`, which is the
-    documented contract of `handle_message`), `close()` empties the pending table and makes **exactly one**
-    `deliver_message(error reply)` per entry, in table order, addressed to the requester, carrying the
-    request id; no exception leaves `close()`.
-
-    The unconditional statement
-      `∀ env c, (closeConn env c).conn.st.pending = [] ∧ attempts (closeConn env c).evs = c.st.pending.map …`
-    is **false** of the code: see `pending_not_all_failed_when_handler_raises`. -/
-theorem pending_all_failed_partial (env : Env) (c : Conn) (h : HandlersKeepContract env) :
+/-- **pending all failed** (full strength, any handler table, any handler behaviour): `close()` empties the
+    pending table and makes **exactly one** `deliver_message(error reply)` per entry, in table order, each an
+    error reply carrying the entry's request id and addressed to the requester.  (Before fix 6a33dc7 this needed
+    the hypothesis that no handler answers an error reply with an unexpected exception.) -/
+theorem pending_all_failed (env : Env) (c : Conn) :
     (closeConn env c).conn.closed = true ∧ (closeConn env c).conn.st.pending = [] ∧
-    (closeConn env c).escaped = false ∧
+    (closeConn env c).evs = c.st.pending.map (clearEv env c.st.peer) ∧
     attempts (closeConn env c).evs = c.st.pending.map (errReplyFor c.st.peer) ∧
     (∀ e ∈ c.st.pending, (errReplyFor c.st.peer e).kind = .errReply ∧ (errReplyFor c.st.peer e).rid = e.1 ∧
         (errReplyFor c.st.peer e).dst = e.2.1) := by
-  rw [closeConn_ok env c h]
+  rw [closeConn_eq env c]
   exact ⟨rfl, rfl, rfl, attempts_clearEv env _ _, fun e _ => ⟨rfl, rfl, rfl⟩⟩
 
-theorem closeEvs_ok (env : Env) (st : PState) (h : HandlersKeepContract env) :
-    closeEvs env st = st.pending.map (clearEv env st.peer) := by
-  simp only [closeEvs, closeConn_ok env _ h, escapedEv, Bool.false_eq_true, ↓reduceIte, List.append_nil]
+/-- nothing but those deliveries happens in `close()`: no event is an exception leaving the callback -/
+theorem close_never_escapes (env : Env) (c : Conn) : Ev.escaped ∉ (closeConn env c).evs := by
+  rw [closeConn_eq env c]
+  simp only [List.mem_map, not_exists, not_and]
+  intro e _ he
+  unfold clearEv at he
+  generalize deliverLocal env (errReplyFor c.st.peer e) = o at he
+  cases o <;> simp [Outcome.ev] at he
 
 /-- however the connection is lost inside `_handle_read` (EOF or any exception), it ends with an empty pending
     table -/
-theorem loss_fails_all_pending_partial (env : Env) (c : Conn) (h : HandlersKeepContract env) (d : Bytes)
+theorem loss_fails_all_pending (env : Env) (c : Conn) (d : Bytes)
     (hopen : c.closed = false) (hclosed : (onRecv env c d).1.closed = true) :
     (onRecv env c d).1.st.pending = [] := by
   unfold onRecv at hclosed ⊢
   simp only [hopen, Bool.false_eq_true, ↓reduceIte] at hclosed ⊢
   by_cases hd : d.isEmpty = true
-  · simp only [hd, ↓reduceIte, shutdown, closeConn_ok env c h]
+  · simp only [hd, ↓reduceIte, shutdown, closeConn_eq env c]
   · simp only [hd, Bool.false_eq_true, ↓reduceIte] at hclosed ⊢
     unfold feed at hclosed ⊢
     simp only [hopen, Bool.false_eq_true, ↓reduceIte] at hclosed ⊢
@@ -266,20 +279,18 @@ theorem loss_fails_all_pending_partial (env : Env) (c : Conn) (h : HandlersKeepC
     obtain ⟨rst, rbuf, revs, rerr⟩ := r
     cases rerr with
     | none => simp at hclosed
-    | some w => simp only [shutdown, closeConn_ok env _ h]
+    | some w => simp only [shutdown, closeConn_eq]
 
 /-- the peer goes away (recv returns b""): removed from the peer map, then exactly one error reply per
-    pending request, in table order; table empty afterwards; nothing leaves the callback -/
-theorem eof_fails_pending_partial (env : Env) (c : Conn) (h : HandlersKeepContract env) (hopen : c.closed = false) :
+    pending request, in table order; table empty afterwards -/
+theorem eof_fails_pending (env : Env) (c : Conn) (hopen : c.closed = false) :
     onRecv env c [] = ({ st := { c.st with pending := [] }, buf := [], closed := true },
                        .eof :: .removed c.st.alias :: c.st.pending.map (clearEv env c.st.peer)) := by
-  simp only [onRecv, hopen, Bool.false_eq_true, ↓reduceIte, List.isEmpty_nil, shutdown, closeConn_ok env c h,
-    List.append_nil]
+  simp only [onRecv, hopen, Bool.false_eq_true, ↓reduceIte, List.isEmpty_nil, shutdown, closeConn_eq env c]
 
 /-- a protocol violation with requests pending: exactly one error reply for each request that had not been
     answered by one of the preceding frames -/
-theorem violation_fails_pending_partial (env : Env) (c : Conn) (h : HandlersKeepContract env)
-    (hopen : c.closed = false) (hbuf : c.buf = [])
+theorem violation_fails_pending (env : Env) (c : Conn) (hopen : c.closed = false) (hbuf : c.buf = [])
     (h64 : env.maxSize < 2 ^ 64) (good : List Bytes) (bad : Bytes) (w : Why)
     (hsz : ∀ p ∈ good, p.length ≤ env.maxSize) (hgood : (procAll env c.st good).err = none)
     (hbad : Offending env (procAll env c.st good).st bad w) :
@@ -289,7 +300,7 @@ theorem violation_fails_pending_partial (env : Env) (c : Conn) (h : HandlersKeep
       ∃ pe, attempts tail = (procAll env c.st good).st.pending.map (errReplyFor pe) := by
   obtain ⟨hcl, stc, hp, hev⟩ := violation_closes env c hopen hbuf h64 good bad w hsz hgood hbad
   refine ⟨?_, closeEvs env stc, hev, stc.peer, ?_⟩
-  · have := loss_fails_all_pending_partial env c h (frames good ++ bad) hopen
+  · have := loss_fails_all_pending env c (frames good ++ bad) hopen
     by_cases hd : (frames good ++ bad).isEmpty = true
     · have hnil : frames good ++ bad = [] := List.isEmpty_iff.mp hd
       have hb : bad = [] := (List.append_eq_nil_iff.mp hnil).2
@@ -298,19 +309,19 @@ theorem violation_fails_pending_partial (env : Env) (c : Conn) (h : HandlersKeep
       cases hbad <;> simp [frame, hb] at hx
     · simp only [onRecv, hopen, hd, Bool.false_eq_true, ↓reduceIte] at this
       exact this hcl
-  · rw [closeEvs_ok env stc h, attempts_clearEv, hp]
+  · rw [closeEvs, attempts_clearEv, hp]
 
-/-- the *unconditional* `pending_all_failed` is false of the code as it is: a handler that answers the first
-    error reply with an unexpected exception aborts `_clear_pending_requests`; the second request never gets
-    its error reply, the table is not cleared and the exception leaves `close()`. -/
-theorem pending_not_all_failed_when_handler_raises :
-    ∃ (env : Env) (c : Conn), c.st.pending.length = 2 ∧ (closeConn env c).escaped = true ∧
-      (closeConn env c).conn.st.pending = c.st.pending ∧ (attempts (closeConn env c).evs).length = 1 :=
-  ⟨{ ctxName := .ctx 0, maxSize := 10, decode := fun _ => .undecodable, handlers := [(1, .crashOnErr), (2, .accept)] },
-   { st := { alias := .client 1, incoming := true, peer := some (.ctx 5), ver := some 0,
-             pending := [(7, ⟨.ctx 0, 1⟩, ⟨.ctx 5, 9⟩), (8, ⟨.ctx 0, 2⟩, ⟨.ctx 5, 9⟩)] },
-     buf := [], closed := false },
-   by decide⟩
+/-- a local `disconnect_from_peer`: same — table emptied, one error reply per entry, entry gone from the peer map -/
+theorem disconnect_fails_pending (w : World) (name : Name) (id : Nat) (c : Conn)
+    (hp : w.peers.lookup name = some id) (hc : w.conns.lookup id = some c) :
+    ∃ w', w.disconnect name = some (w', .removed c.st.alias :: c.st.pending.map (clearEv w.env c.st.peer)) ∧
+      w'.peers.lookup name = none ∧
+      w'.conns.lookup id = some { st := { c.st with pending := [] }, buf := [], closed := true } := by
+  refine ⟨{ w with conns := setConn id { st := { c.st with pending := [] }, buf := [], closed := true } w.conns,
+                   peers := erasePeer name w.peers }, ?_, ?_, ?_⟩
+  · simp only [World.disconnect, hp, hc, shutdown, closeConn_eq]
+  · exact lookup_erasePeer_eq _ _
+  · exact lookup_setConn_eq _ _ _
 
 /-! ## 6. The context and its other connections keep working -/
 
@@ -384,47 +395,28 @@ theorem send_isolation (w : World) (m : Msg) (payload : Bytes) (ok : Bool) :
             cases hid
             exact lookup_setConn_ne _ _ _ _ hj
 
-/-! ## 7. What the code does *not* guarantee (negative results, witnesses replayed by the harness) -/
+/-- a request that cannot be sent (socket error, too big, connection not ready — every exception of
+    `conn.send_message` since dc3d515) is answered at once by exactly one local error reply to the requester -/
+theorem unsendable_request_fails (env : Env) (m : Msg) (pn : Option Name) (canSend : Bool) (h : m.kind = .request) :
+    attempts (sendFailure env m pn canSend) =
+      [{ kind := .errReply, rid := m.rid, src := m.dst, dst := m.src, body := .sendFailed }] := by
+  simp only [sendFailure, localErr, h, ↓reduceIte, attempts, List.filterMap_cons, List.filterMap_nil]
+  generalize deliverLocal env _ = o
+  cases o <;> rfl
 
-/-- "a repeated handshake ⇒ disconnected" is false of the code as it is: a handshake whose context name is
-    `None` leaves `peer_context_name` unset, so the next handshake is taken for the first one. -/
-theorem repeated_handshake_accepted_after_nameless_handshake :
-    ∃ (env : Env) (p : Bytes), env.decode p = .handshake none 0 false ∧ p.length ≤ env.maxSize ∧
-      (feed env (Conn.fresh (.client 1) true) (frame p ++ frame p)).1.closed = false ∧
-      (feed env (Conn.fresh (.client 1) true) (frame p ++ frame p)).1.buf = [] := by
-  refine ⟨{ ctxName := .ctx 0, maxSize := 10, decode := fun _ => .handshake none 0 false, handlers := [] }, [1],
-    rfl, by decide, ?_, ?_⟩ <;> decide
+/-- a reply that cannot be sent is replaced by an error reply to the peer (same request id, same addresses),
+    provided the connection can still send; nothing is delivered locally -/
+theorem unsendable_reply_replaced (env : Env) (m : Msg) (pn : Name) (h : m.kind = .reply) :
+    sendFailure env m (some pn) true =
+      [.sentErr { kind := .errReply, rid := m.rid, src := m.src, dst := ⟨pn, m.dst.obj⟩, body := .sendFailed }] := by
+  simp [sendFailure, h]
 
-/-! ## 8. Non-vacuity: the hypotheses above are met by concrete, non-trivial states -/
-
-/-- a handler table whose handlers accept or refuse (raise `QMI_MessageDeliveryException`) keeps the contract -/
-theorem keepContract_of_handlers (env : Env)
-    (h : ∀ e ∈ env.handlers, e.2 ≠ .crash ∧ e.2 ≠ .crashOnErr) : HandlersKeepContract env := by
-  intro m hk
-  unfold deliverLocal
-  split
-  · simp
-  · cases hl : env.handlers.lookup m.dst.obj with
-    | none => simp
-    | some hk' =>
-      have hmem : ∃ o, (o, hk') ∈ env.handlers := by
-        generalize env.handlers = l at hl
-        induction l with
-        | nil => simp [List.lookup] at hl
-        | cons e rest ih =>
-          obtain ⟨k, v⟩ := e
-          simp only [List.lookup] at hl
-          split at hl
-          · cases hl; exact ⟨k, List.mem_cons_self⟩
-          · obtain ⟨o, ho⟩ := ih hl; exact ⟨o, List.mem_cons_of_mem _ ho⟩
-      obtain ⟨o, ho⟩ := hmem
-      have := h _ ho
-      simp only [ne_eq, Outcome.handled.injEq]
-      cases hk' <;> simp_all [HKind.on]
+/-! ## 7. Non-vacuity: the hypotheses above are met by concrete, non-trivial states -/
 
 /-- example surroundings: context `n0`, limit 10 bytes, payload `[1]` = client handshake of `n5`,
     `[2]` = a request of `n5.3` to `n0.1`, `[3]` = a reply of `n5.3` to request 9 of `n0.4`, `[4]` = a message
-    claiming to come from `n6`; handlers for objects 1 and 4 -/
+    claiming to come from `n6`; handlers for objects 1 and 4 — the latter answers error replies with an
+    unexpected exception -/
 def exEnv : Env :=
   { ctxName := .ctx 0, maxSize := 10,
     decode := fun p =>
@@ -433,15 +425,13 @@ def exEnv : Env :=
       else if p = [3] then .msg ⟨.reply, 9, ⟨.ctx 5, 3⟩, ⟨.ctx 0, 4⟩, .tag 43⟩
       else if p = [4] then .msg ⟨.other, 0, ⟨.ctx 6, 3⟩, ⟨.ctx 0, 1⟩, .tag 44⟩
       else .undecodable,
-    handlers := [(1, .accept), (4, .refuseReq)] }
+    handlers := [(1, .accept), (4, .crashOnErr)] }
 
 /-- an incoming connection on which two requests (9, 10) of local object 4 are pending -/
 def exConn : Conn :=
   { st := { alias := .client 1, incoming := true, peer := none, ver := none,
             pending := [(9, ⟨.ctx 0, 4⟩, ⟨.ctx 5, 3⟩), (10, ⟨.ctx 0, 4⟩, ⟨.ctx 5, 8⟩)] },
     buf := [], closed := false }
-
-example : HandlersKeepContract exEnv := keepContract_of_handlers exEnv (by decide)
 
 /-- `delivers_exactly` applies: handshake, a request, a reply -/
 example :
@@ -473,6 +463,23 @@ example : Offending exEnv (procAll exEnv exConn.st [[1], [2], [3]]).st (frame [4
     (by decide) (by decide) rfl rfl (by decide)
 
 example : (procAll exEnv exConn.st [[1], [2], [3]]).err = none := by decide
+
+/-- `pending_all_failed` on a table whose first requester (object 4) raises an unexpected exception on its error
+    reply: both entries are still answered and the table is cleared -/
+example : attempts (closeConn exEnv { exConn with st := { exConn.st with peer := some (.ctx 5) } }).evs =
+      [⟨.errReply, 9, ⟨.ctx 5, 3⟩, ⟨.ctx 0, 4⟩, .closedWaiting (some (.ctx 5))⟩,
+       ⟨.errReply, 10, ⟨.ctx 5, 8⟩, ⟨.ctx 0, 4⟩, .closedWaiting (some (.ctx 5))⟩] ∧
+    (closeConn exEnv exConn).conn.st.pending = [] ∧
+    deliverLocal exEnv ⟨.errReply, 9, ⟨.ctx 5, 3⟩, ⟨.ctx 0, 4⟩, .closedWaiting (some (.ctx 5))⟩ = .handled .crash := by
+  decide
+
+/-- `second_handshake_offends` / `nameless_handshake_offends` apply: `[1]` twice, and a handshake without a name -/
+example : Offending exEnv (procAll exEnv exConn.st [[1], [2]]).st (frame [1] ++ []) .secondHandshake :=
+  second_handshake_offends exEnv exConn.st [1] [[2]] [1] [] (some (.ctx 5)) (some (.ctx 5)) 0 0 false false
+    rfl rfl (by decide) (by decide) rfl
+
+example : (feed { exEnv with decode := fun _ => .handshake none 0 false } exConn (frame [1] ++ frame [1])).1.closed = true := by
+  decide
 
 /-- a world with two connections: feeding garbage to connection 0 closes it and leaves connection 1 and its
     peer-map entry alone (hypotheses of `isolation` / `closed_peer_is_unknown` are satisfiable) -/
